@@ -25,6 +25,24 @@ CHECKS = {
              "element's error by half the nominal step plus float rounding; idempotence is judged through dequantize().",
         note="Trusted: float64 arithmetic, independent group model (row-major runs). 1-D tensors without group size: "
              "grouping read from the number of scales."),
+    "C03": dict(
+        technique="runtime monitor: range oracle (non-saturation / full range / dtype / count) on optimizer and "
+                  "quantize_weight results plus metamorphic locality checks (rescale / replace / permute other rows)",
+        level="exploration", ref="4/C03",
+        text="The real optimizers, absmax_scale and quantize_weight are called on tensors whose rows/groups span many "
+             "decades; an independent float64 oracle checks non-saturation, full-range use, dtype and count of the scales, "
+             "and 3-6 metamorphic siblings per tensor check byte-identical results for the untouched row/group.",
+        note="Trusted: float64 arithmetic; group order assumption for grouped scales (axis-index major); 2-ulp scale "
+             "rounding tolerance. Known finding C03-F2 (float8 weight scales) is matched by mechanism."),
+    "C16": dict(
+        technique="runtime monitor: finiteness + C01/C02 error oracles on degenerate-directed weights, API-boundary "
+                  "monitor on quantize_activation during calibrate-then-infer histories, zero-weight layer oracle",
+        level="exploration", ref="4/C16",
+        text="Weights assembled from degenerate classes (zeros, constant, offset, subnormal, near dtype max, ...) go "
+             "through the real quantize_weight; calibration sequences with zero/constant/tiny/huge batches are followed "
+             "by inference with a monitor on every activation quantization; zero-weight Linear/Conv2d must output the bias.",
+        note="Float reference must itself be finite (batches are scaled down until it is). Known findings C16-F27/F27b "
+             "(values within a rounding of the dtype maximum) are matched by a mechanism computed from the witness."),
 }
 
 PLANNED = {}
